@@ -1461,6 +1461,41 @@ func (ex *Exec) binop(op token.Token, x, y Value, xt types.Type, pos token.Pos) 
 			return a > b
 		}
 	}
+	// struct / array equality: field-wise
+	if op == token.EQL || op == token.NEQ {
+		var xs, ys []Value
+		switch a := x.(type) {
+		case StructV:
+			if b, ok := y.(StructV); ok {
+				xs, ys = a, b
+			}
+		case ArrayV:
+			if b, ok := y.(ArrayV); ok {
+				xs, ys = a, b
+			}
+		}
+		if xs != nil && len(xs) == len(ys) {
+			acc := ex.b.True
+			var ft func(i int) types.Type
+			if st, ok := under(xt).(*types.Struct); ok {
+				ft = func(i int) types.Type { return st.Field(i).Type() }
+			} else if at, ok := under(xt).(*types.Array); ok {
+				ft = func(int) types.Type { return at.Elem() }
+			}
+			for i := range xs {
+				var t types.Type
+				if ft != nil {
+					t = ft(i)
+				}
+				e := ex.binop(token.EQL, xs[i], ys[i], t, pos)
+				acc = ex.b.And(acc, ex.anyTerm(ex.normInt(e)))
+			}
+			if op == token.NEQ {
+				acc = ex.b.Not(acc)
+			}
+			return ex.normInt(acc)
+		}
+	}
 	// reference-like comparisons
 	if op == token.EQL || op == token.NEQ {
 		eq := ex.refEqual(x, y)
